@@ -173,7 +173,19 @@ func (c *Ctx) CheckFieldLocks(r LockRule, owner string) int {
 
 func shortLock(p string) string {
 	if i := strings.LastIndex(p, ":"); i >= 0 {
-		return p[i+1:]
+		p = p[i+1:]
+	}
+	// drop run-specific addresses of anonymous values
+	for {
+		i := strings.Index(p, "@0x")
+		if i < 0 {
+			break
+		}
+		j := i + 3
+		for j < len(p) && strings.ContainsRune("0123456789abcdef", rune(p[j])) {
+			j++
+		}
+		p = p[:i] + p[j:]
 	}
 	return p
 }
